@@ -284,7 +284,7 @@ mod n {
 
     #[test]
     fn n_c03_conversion() {
-        drive("C03.conversion", "shipped project `cubo` re-written with space offset {(0,0,0),(3,7,0),(-4,2,1.5)} x building deviation {0,30,135,270} x space turned within the building by {0,30,250} (zero offset) x outline {square 10x10, trapezoid}; an overhang (at 90 / 60 / 120 degrees from the wall) and two fins on every window - or the right fin / the left fin / the overhang alone, or the two fins -; parsed and converted by the real code; positions to 1 cm against the source definition", |c| {
+        drive("C03.conversion", "shipped project `cubo` re-written with space offset {(0,0,0),(3,7,0),(-4,2,1.5)} x building deviation {0,30,135,270} x space turned within the building by {0,30,250} (zero offset) x outline {square 10x10, trapezoid}; an overhang (at 90 / 60 / 120 degrees from the wall) and two fins on every window - or the right fin / the left fin / the overhang alone, or the two fins -; the SPACE block with / without a HEIGHT of its own that differs from the storey height; parsed and converted by the real code; positions to 1 cm against the source definition", |c| {
             let off = c.of(&[(0.0f32, 0.0f32, 0.0f32), (3.0, 7.0, 0.0), (-4.0, 2.0, 1.5)]);
             let dev = c.of(&[0.0f32, 30.0, 135.0, 270.0]);
             // a space turned within the building: with a zero offset, so that the order of turning and shifting the
@@ -303,8 +303,15 @@ mod n {
             if which != 0 && oh_angle != 90.0 {
                 return;
             }
-            c.note(format!("offset {:?} deviation {} space azimuth {} overhang angle {} outline {:?} protections {}", off, dev, space_az, oh_angle, outline, ["overhang + both fins", "right fin alone", "left fin alone", "overhang alone", "both fins"][which]));
-            let text = cubo_variant_full(off, dev, &outline, space_az, oh_angle, which);
+            // the SPACE block may state a HEIGHT of its own: the storey height (SPACE-HEIGHT of its FLOOR, 3 m) is what counts
+            let own_height = which == 0 && oh_angle == 90.0 && c.flag();
+            c.note(format!("offset {:?} deviation {} space azimuth {} overhang angle {} outline {:?} protections {}{}", off, dev, space_az, oh_angle, outline, ["overhang + both fins", "right fin alone", "left fin alone", "overhang alone", "both fins"][which], if own_height { ", SPACE HEIGHT = 2.6 written" } else { "" }));
+            let mut text = cubo_variant_full(off, dev, &outline, space_az, oh_angle, which);
+            if own_height {
+                let (from, to) = ("nCompleto = \"P01_E01\"\n              HEIGHT        =              3\n", "nCompleto = \"P01_E01\"\n              HEIGHT        =            2.6\n");
+                c.check("C03.conversion.variant_written", text.contains(from), || "the HEIGHT line of the SPACE block was not found".to_string());
+                text = text.replacen(from, to, 1);
+            }
             let data = match hulc::ctehexml::parse_with_catalog(&text) {
                 Ok(d) => d,
                 Err(e) => {
@@ -925,10 +932,42 @@ mod n {
             defs: Vec<(usize, String, String)>,
         }
         let catalogue = hulc::ctehexml::load_lider_catalog().expect("LIDER catalogue");
-        let projects: Vec<Project> = project_files()
+        // the shipped projects, and three of them rewritten as projects WITHOUT thermostats / WITHOUT loads (every
+        // SYSTEM-CONDITIONS / SPACE-CONDITIONS block and every reference to one removed - as legacy LIDER projects are)
+        fn without_kind(text: &str, kind: &str) -> String {
+            let mut out = String::with_capacity(text.len());
+            let mut skipping = false;
+            for line in text.split_inclusive('\n') {
+                let t = line.trim();
+                if skipping {
+                    if t == ".." {
+                        skipping = false;
+                    }
+                    continue;
+                }
+                if t.starts_with('"') && t.ends_with(&format!("= {}", kind)) {
+                    skipping = true;
+                    continue;
+                }
+                if t.split_once('=').map(|(k, _)| k.trim() == kind).unwrap_or(false) {
+                    continue;
+                }
+                out.push_str(line);
+            }
+            out
+        }
+        let mut sources: Vec<(String, String)> = project_files().iter().map(|f| (f.file_name().unwrap().to_string_lossy().to_string(), std::fs::read_to_string(f).unwrap())).collect();
+        for base in ["cubo.ctehexml", "casoa.ctehexml", "e4h_medianeras.ctehexml"] {
+            if let Some((n, t)) = sources.iter().find(|s| s.0 == base).cloned() {
+                sources.push((format!("{} without thermostats", n), without_kind(&t, "SYSTEM-CONDITIONS")));
+                sources.push((format!("{} without loads", n), without_kind(&t, "SPACE-CONDITIONS")));
+            }
+        }
+        let n_sources = sources.len();
+        let projects: Vec<Project> = sources
             .iter()
-            .map(|f| {
-                let text = std::fs::read_to_string(f).unwrap();
+            .map(|(fname, text)| {
+                let text = text.clone();
                 let (base_json, base_links, base) = match convert_text(text.clone()) {
                     Outcome::Model(m) => (m.as_json().ok(), optional_links(&m), Some(m)),
                     _ => (None, usize::MAX, None),
@@ -973,11 +1012,11 @@ mod n {
                         sites.push((at, name, block, key, holder, used));
                     }
                 }
-                Project { fname: f.file_name().unwrap().to_string_lossy().to_string(), text, base_json, base_links, sites, defs }
+                Project { fname: fname.clone(), text, base_json, base_links, sites, defs }
             })
             .collect();
-        drive("C02.broken_sites", "all 12 shipped .ctehexml projects: ONE place where a link of the property's list is written (wall -> construction / adjacent space, construction -> layers, layers -> material, window -> window construction, window construction -> glazing / frame, space -> loads / thermostat, loads / thermostat -> yearly schedule, yearly -> weekly -> daily schedule) renamed to a name that is not defined, or - for the links to loads, thermostats and schedules - to the name of an element of another of these kinds (a schedule of another level, loads, a thermostat); every such place (4 300), one at a time, each way", |c| {
-            c.check("C02.broken_sites.corpus", projects.len() >= 12 && projects.iter().all(|p| p.sites.len() >= 15), || format!("reference places not found: {:?}", projects.iter().map(|p| p.sites.len()).collect::<Vec<_>>()));
+        drive("C02.broken_sites", "all 12 shipped .ctehexml projects, and three of them rewritten without thermostats / without loads (blocks and references removed, as legacy projects are): ONE place where a link of the property's list is written (wall -> construction / adjacent space, construction -> layers, layers -> material, window -> window construction, window construction -> glazing / frame, space -> loads / thermostat, loads / thermostat -> yearly schedule, yearly -> weekly -> daily schedule) renamed to a name that is not defined, or - for the links to loads, thermostats and schedules - to the name of an element of another of these kinds (a schedule of another level, loads, a thermostat); every such place (4 300), one at a time, each way", |c| {
+            c.check("C02.broken_sites.corpus", n_sources >= 18 && projects.len() >= 18 && projects.iter().all(|p| p.sites.len() >= 15) && projects.iter().filter(|p| p.fname.contains(" without ")).all(|p| !p.text.contains(if p.fname.ends_with("thermostats") { "= SYSTEM-CONDITIONS" } else { "= SPACE-CONDITIONS" })), || format!("reference places not found: {:?}", projects.iter().map(|p| p.sites.len()).collect::<Vec<_>>()));
             let k = c.pick(projects.len());
             let p = &projects[k];
             c.check("C02.broken.base_converts", p.base_json.is_some(), || format!("{} itself does not convert", p.fname));
@@ -1222,6 +1261,55 @@ mod n {
             out.push_str(line);
         }
         out
+    }
+
+    // ... and the same for projects with a degenerate element: in the first block of every kind, each written number set
+    // to 0 / 1, one at a time (a shade of zero height, a window of zero width, a schedule value of 0 ...)
+    #[test]
+    fn n_c05_degenerate_repeat() {
+        let files = project_files();
+        // (project, line) of every numeric attribute line inside the first block of each kind
+        let mut cases: Vec<(usize, usize)> = vec![];
+        let texts: Vec<(String, String)> = files.iter().map(|f| (f.file_name().unwrap().to_string_lossy().to_string(), std::fs::read_to_string(f).unwrap())).collect();
+        for (fi, (_, text)) in texts.iter().enumerate() {
+            let defs = definitions(text);
+            let mut seen = std::collections::BTreeSet::new();
+            let line_of = |off: usize| text[..off].matches('\n').count();
+            let lines: Vec<&str> = text.split_inclusive('\n').collect();
+            for d in &defs {
+                if !seen.insert(d.2.clone()) {
+                    continue;
+                }
+                let mut l = line_of(d.0) + 1;
+                while l < lines.len() && lines[l].trim() != ".." && l < line_of(d.0) + 60 {
+                    if lines[l].contains('=') && damage(text, l, 8).is_some() {
+                        cases.push((fi, l));
+                    }
+                    l += 1;
+                }
+            }
+        }
+        drive("C05.degenerate", "the 12 shipped projects with ONE number of the first block of every kind (windows, shades, walls, spaces, materials, schedules ...) set to 0 or to 1: whenever the project still converts, a second conversion in the same process and one on another thread give byte-identical JSON", |c| {
+            c.check("C05.degenerate.corpus", cases.len() >= 1000, || format!("{} attribute lines found", cases.len()));
+            let k = c.pick(cases.len());
+            let kind = c.of(&[8usize, 10]);
+            let (fi, line) = cases[k];
+            let (name, text) = &texts[fi];
+            let edited = match damage(text, line, kind) {
+                Some(t) => t,
+                None => return,
+            };
+            c.note(format!("{} line {} ({}): {}", name, line + 1, text.split_inclusive('\n').nth(line).unwrap_or("").trim(), DAMAGE_KINDS[kind]));
+            let first = match convert_to_json(&edited) {
+                Ok(j) => j,
+                Err(_) => return,
+            };
+            let second = convert_to_json(&edited).unwrap_or_default();
+            c.check("C05.convert.same_process", first == second, || format!("{} with line {} {}: the second conversion in the same process differs", name, line + 1, DAMAGE_KINDS[kind]));
+            let third = std::thread::scope(|sc| sc.spawn(|| convert_to_json(&edited).unwrap_or_default()).join().unwrap_or_default());
+            c.check("C05.convert.threads", first == third, || format!("{} with line {} {}: a conversion on another thread differs", name, line + 1, DAMAGE_KINDS[kind]));
+            c.nontrivial(format!("{} {}", name, line));
+        });
     }
 
     const TWIN_KINDS: [&str; 15] = ["MATERIAL", "LAYERS", "CONSTRUCTION", "GLASS-TYPE", "NAME-FRAME", "GAP", "DAY-SCHEDULE-PD", "WEEK-SCHEDULE-PD", "SCHEDULE-PD", "SPACE-CONDITIONS", "SYSTEM-CONDITIONS", "BUILDING-SHADE", "THERMAL-BRIDGE", "POLYGON", "WINDOW"];
